@@ -104,7 +104,10 @@ def run(ck, F, tier):
     # ---- G2 / G3 via the trace of do_run ---------------------------------------------------------------
     rb = F.body(T + "do_run")
     # helpers of the collector that update the accumulators (e.g. an extracted "record one frame" method) are expanded
-    upd_helpers = sorted(o for o in writers if o != T + "do_run")
+    # ... and so are private methods of BerTest that only stage the collector (per-point body, spawning, stopping); make_worker stays observed
+    stage_helpers = [p for p in F.bodies if p.startswith(T) and "{closure" not in p and p not in (T + "do_run", T + "make_worker", T + "new", T + "run")
+                     and F.private_helper(p, T) is not None]
+    upd_helpers = sorted(set(o for o in writers if o != T + "do_run") | set(stage_helpers))
     notme = (r"(?!(?:%s)$)" % "|".join(re.escape(h) for h in upd_helpers)) if upd_helpers else ""
     tr = SiteTracer(F, contracts=notme + r"(?:std::sync::mpsc::.*|std::thread::.*|std::mem::drop|" + re.escape(BER) + r".*)",
                     no_inline=notme + r"(?:std::.*|simulation::.*)", mode="real")
@@ -197,10 +200,23 @@ def run(ck, F, tier):
     wl = [l for l in recvs[0]["loops"] if l[0] == "while"]
     okg = False
     why = "recv is not inside a while loop"
-    if wl:
-        c = single_atom(wl[0][1])
-        okg = c is not None and atom_fn(c) == "lt" and repr(atom_args(c)[0]).startswith(CS + "::errors_for_termination(") and atom_args(c)[1] == var("self.max_frame_errors")
-        why = "loop continues while %r" % (wl[0][1],)
+    if wl and wl[0][1] is not None:
+        # conjuncts of the loop condition: the stopping rule, and possibly "a result was received" (while .. && let Ok(..) = recv())
+        conj = []
+        stack = [wl[0][1]]
+        while stack:
+            x = stack.pop()
+            xa = single_atom(x) if isinstance(x, Poly) else None
+            if xa and atom_fn(xa) == "and":
+                stack.extend(a_[1] if isinstance(a_, tuple) and len(a_) == 2 and a_[0] == "P" else a_ for a_ in atom_args(xa))
+            else:
+                conj.append(x)
+        stop = [x for x in conj if isinstance(x, Poly) and single_atom(x) is not None and atom_fn(single_atom(x)) == "lt"]
+        rest = [x for x in conj if x not in stop]
+        c = single_atom(stop[0]) if len(stop) == 1 else None
+        okg = c is not None and repr(atom_args(c)[0]).startswith(CS + "::errors_for_termination(") and atom_args(c)[1] == var("self.max_frame_errors") and \
+            all(isinstance(x, Poly) and single_atom(x) is not None and atom_fn(single_atom(x)) == "matches" and "recv(" in repr(x) for x in rest)
+        why = "loop continues while %s" % (" && ".join(repr(x)[:90] for x in conj),)
     ck.inst("G3", "loop-condition", okg, recvs[0]["sp"], why + " ; required errors_for_termination() < max_frame_errors (strict)")
     eb = F.body(CS + "::errors_for_termination")
     ev = Tracer(F, "NONE")
@@ -266,28 +282,33 @@ def run(ck, F, tier):
     rets = [e for e in tr.events if e.callee == "<return>" and len(e.loops) <= 1]
     order_ok = False
     why = "spawn/terminate/join not found"
+    exits_between = []
     if spawns and joins and term_workers:
-        i_recv = tr.sites.index(recvs[0])
-        i_term = tr.sites.index(term_workers[-1])
-        i_join = tr.sites.index(joins[0])
-        whole = lambda s: any(l[0] == "iter" and "repeat_with" in repr(l[2]) and "take" in repr(l[2]) for l in s["loops"])
-        # all returns of the per-point body come after the join loop
-        tries = [n for n in walk(rb.value) if n.get("k") == "try"]
-        order_ok = i_recv < i_term < i_join and whole(term_workers[-1]) and whole(joins[0]) and not tries
-        why = "after the collection loop every worker is sent terminate (loop over all workers), then every handle is joined (loop over all workers); no `?` exit in do_run (%d)" % len(tries)
+        s_spawn, s_recv = spawns[0]["seq"], recvs[0]["seq"]
+        s_term, s_join_first, s_join_last = term_workers[-1]["seq"], joins[0]["seq"], joins[-1]["seq"]
+
+        def over_all_workers(st):
+            """inside a loop over the whole collection of spawned workers (the value that was built from the spawn calls)"""
+            for l in st["loops"]:
+                if l[0] == "iter" and ("repeat_with" in repr(l[2]) or "make_worker" in repr(l[2]) or "num_workers" in repr(l[2])) and \
+                        not any(x in repr(l[2]) for x in ("'skip'", "'take_while'", "'filter'", "'step_by'")):
+                    return True
+            return False
+        # nothing may leave the per-point body between the first spawn and the last join (a `?` or return there abandons live workers)
+        exits_between = [e for e in tr.events if e.callee in ("<try>", "<return>", "<break>") and s_spawn < e.seq < s_join_last
+                         and not (e.callee == "<break>" and any(l[0] in ("while", "loop") for l in e.loops))]
+        order_ok = s_recv < s_term < s_join_first and over_all_workers(term_workers[-1]) and over_all_workers(joins[0]) and not exits_between
+        why = ("after the collection loop every worker is sent terminate (loop over all workers: %s), then every handle is joined (loop over all workers: %s); "
+               "no exit between spawning and the last join (%d)" % (over_all_workers(term_workers[-1]), over_all_workers(joins[0]), len(exits_between)))
     ck.inst("G5", "terminate-then-join-all", order_ok, joins[0]["sp"] if joins else rb.span, why)
-    # name-independent: the early return is guarded by a local that is assigned inside the loop containing the join() call
-    join_loop_locals = set()
-    for fl in [n for n in walk(rb.value) if n.get("k") == "for"]:
-        if any(x.get("k") == "mcall" and x["m"] == "join" for x in walk(fl["body"])):
-            for a in walk(fl["body"]):
-                if a.get("k") in ("assign", "assignop"):
-                    nm = plain_local(a["l"])
-                    if nm:
-                        join_loop_locals.add(nm.split("#")[0] + "@after")
-    ret_ok = all(any(any(v in repr(g) for v in join_loop_locals) for g, p in e.guards) for e in rets) and bool(join_loop_locals)
-    ck.inst("G5", "returns-after-join", ret_ok and len(rets) >= 1, rets[0].site if rets else rb.span,
-            "the only early return of do_run is the propagation of a worker error after the join loop (%d return sites)" % len(rets))
+    # what leaves the per-point body after the joins is the propagation of a worker failure: every return / `?` after the last join
+    # (if any) depends on the outcome of the joins, and none comes before
+    after = [e for e in tr.events if e.callee in ("<return>", "<try>") and joins and e.seq > joins[-1]["seq"] and len(e.loops) <= 1]
+    before = [e for e in tr.events if e.callee == "<return>" and joins and e.seq < joins[0]["seq"] and spawns and e.seq > spawns[0]["seq"]]
+    ret_ok = bool(after) and not before
+    rets = after
+    ck.inst("G5", "returns-after-join", ret_ok, rets[0].site if rets else rb.span,
+            "a worker failure is propagated only after every worker has been joined (%d exit site(s) after the last join, %d before the first)" % (len(after), len(before)))
     runb = F.body(T + "run")
     trr = Tracer(F, re.escape(T) + r"do_run|std::sync::mpsc::Sender::<T>::send", mode="int")
     env = {}
@@ -305,7 +326,18 @@ def run(ck, F, tier):
             "after the collection loop a final statistics report is sent (report!(.., true)) and the statistics are stored, once per Eb/N0 point")
 
     # ---- G6 ---------------------------------------------------------------------------------------
-    mir = rb.mir
+    # the body that creates the result channel: do_run itself or the private helper holding the per-point work
+    gb = rb
+    for cand in [rb] + [F.bodies[p] for p in stage_helpers]:
+        if cand.mir and any(bb["term"]["k"] == "call" and (bb["term"]["func"].get("fn") or "").endswith(("mpsc::channel", "mpsc::sync_channel"))
+                            and "WorkerResult" in repr(bb["term"]["func"]) + repr(bb["term"].get("dest")) + repr(cand.mir.get("locals", ""))[:0] for bb in cand.mir["blocks"]):
+            gb = cand
+            break
+    else:
+        for cand in [F.bodies[p] for p in stage_helpers]:
+            if cand.mir and any(bb["term"]["k"] == "call" and (bb["term"]["func"].get("fn") or "") == RECV for bb in cand.mir["blocks"]):
+                gb = cand
+    mir = gb.mir
     blocks = mir["blocks"]
     # locate the sender local: (tx, rx) = channel(); recv is called on rx
     chan = [i for i, bb in enumerate(blocks) if bb["term"]["k"] == "call" and (bb["term"]["func"].get("fn") or "").endswith(("mpsc::channel", "mpsc::sync_channel"))]
@@ -352,7 +384,7 @@ def run(ck, F, tier):
     # recv()/join() results must not be unwrapped
     def unwrapped(callee_rx):
         out = []
-        for n in walk(rb.value):
+        for n in [x for bd in [rb] + [F.bodies[p] for p in stage_helpers] for x in walk(bd.value)]:
             if n.get("k") == "mcall" and n["m"] in ("unwrap", "expect"):
                 r = strip(n["recv"])
                 if r.get("k") == "mcall" and re.search(callee_rx, r.get("def") or ""):
